@@ -268,7 +268,21 @@ fn placement_neighbours(p: &Pos) -> Vec<(&'static str, Pos)> {
 pub fn c08_state(ctx: &Ctx, hs: &[(u64, ZobristHasher)], p: &Pos, l: &mut Local, placement: bool, transitions: bool) {
     let st = to_state(p);
     l.inc("states");
-    let base: Vec<u64> = hs.iter().map(|(_, h)| h.hash(&st)).collect();
+    // every hasher sees its own fresh position object first ...
+    let base: Vec<u64> = hs.iter().map(|(_, h)| h.hash(&to_state(p))).collect();
+    // ... and must give the same key for an object (and a clone of it) that other hashers
+    // have looked at before: the key belongs to (hasher, position), not to the object
+    {
+        let shared = to_state(p);
+        let cl = shared.clone();
+        for (i, (seed, h)) in hs.iter().enumerate() {
+            l.inc("equal_pairs");
+            if h.hash(&shared) != base[i] || h.hash(&cl) != base[i] || h.hash(&shared.clone()) != base[i] {
+                ctx.violation("hash-depends-on-earlier-queries", p.fen(), json!({"fen": p.fen(), "seed": seed, "explanation": "the same position object (or its clone) hashed by other hashers first gives another key than a fresh object"}));
+                return;
+            }
+        }
+    }
     // equal side: counters must not matter
     let mut q = p.clone();
     q.half = 37;
@@ -439,7 +453,7 @@ pub fn run_c08(ctx: &Ctx) -> i32 {
         (transitions + ctx.get("separation_pairs")).max(1),
         ctx.get("separation_pairs") + ctx.get("equal_pairs"),
         ctx.no_caps(),
-        "every state of the families and BFS spaces x hasher seeds {0,1,2,VERIF_SEED}; must-equal twins (counters changed, reached by a move vs. built directly, transposing move orders) and every single-component legal neighbour (each castling right toggled, ep target with a legal capture removed/added, side flipped; on a strided sub-space and the BFS spaces also every piece moved/removed/recoloured/re-kinded) which must hash differently; global injectivity of the key on the complete family F3 and a same-kind F4 sub-family (any two distinct positions)",
+        "every state of the families and BFS spaces x hasher seeds {0,1,2,VERIF_SEED}; must-equal twins (counters changed, reached by a move vs. built directly, transposing move orders, the same object or its clone after other hashers have queried it) and every single-component legal neighbour (each castling right toggled, ep target with a legal capture removed/added, side flipped; on a strided sub-space and the BFS spaces also every piece moved/removed/recoloured/re-kinded) which must hash differently; global injectivity of the key on the complete family F3 and a same-kind F4 sub-family (any two distinct positions)",
         &[ASSUME_ORACLE, "a 64-bit chance collision would be reported (and be reproducible from the replay file); none is tolerated silently"],
     )
 }
